@@ -8,9 +8,10 @@
   make progress, slices are therefore in range, signature parsing and escape decoding are
   total with typed errors, and every error the model can report is one of jparse's error
   types (regenerated).  The lexer cannot loop: every token other than EOF consumes at least one
-  byte (`next_progress`).  Partial (DESIGN.md §6 C08): that the fuel 2·|input|+8 always suffices
-  for the parser is validated by the correspondence (the model reports `fuel` otherwise), not
-  proved.
+  byte (`next_progress`), lexing terminates (`lexAll_terminates`), and the recursion budget of the
+  Pratt parser and of every loop it runs always suffices (`parse_never_out_of_fuel`); the optimiser is
+  structurally recursive (accepted by Lean's termination checker), so the model of Compile is a total
+  function that never reports its own `fuel` error.
 -/
 import JsonataModel.Model.Parser
 import JsonataModel.Generated.Facts
@@ -627,6 +628,858 @@ theorem lexAll_terminates (inp : Input) (n : Nat) (s : LState) (h : inp.size - s
               have := i2 ts hl
               simp
               omega
+
+
+/-! ### the parser's budgets suffice -/
+
+/-- `next` never moves backwards (also when it returns EOF) -/
+theorem next_ge (inp : Input) (allowRegex : Bool) (s0 : LState) (t : Token) (s' : LState)
+    (h : next inp allowRegex s0 = .ok (t, s')) : s0.current ≤ s'.current := by
+  -- after skipping whitespace
+  have hws0 := acceptAllLoop_stops inp isWhitespace (inp.size + 1) false s0 (by omega)
+  have hge0 := acceptAll_ge inp isWhitespace s0.current s0 (Nat.le_refl _)
+  unfold next at h
+  simp only [] at h
+  generalize hs : ignore (acceptAll inp isWhitespace s0).2 = s at h
+  have hsc : s.current = (acceptAll inp isWhitespace s0).2.current := by rw [← hs]; rfl
+  have hge : s0.current ≤ s.current := by rw [hsc]; exact hge0
+  have hws : (runeAt inp s.current != eofRune && isWhitespace (runeAt inp s.current)) = false := by
+    rw [hsc]; exact hws0
+  obtain ⟨n1, n2, n3⟩ := nextRune_at inp s
+  generalize hch : (nextRune inp s).1 = ch at h n1
+  generalize hs1 : (nextRune inp s).2 = s1 at h n2 n3
+  by_cases heof : (ch == eofRune) = true
+  · simp only [heof, if_true] at h
+    injection h with e; injection e with _ e2
+    rw [← e2, n2]; omega
+  · simp only [heof, Bool.false_eq_true, if_false] at h
+    have hne' : ch ≠ eofRune := by simpa using heof
+    have hw : 1 ≤ widthAt inp s.current := widthAt_pos inp _ (by rw [← n1]; exact hne')
+    have hb : s.current + 1 ≤ s1.current := by omega
+    have hnotws : isWhitespace ch = false := by
+      rw [← n1] at hws
+      have : (ch != eofRune) = true := by simpa using hne'
+      simpa [this] using hws
+    -- in every branch the final position is at or after s1.current
+    suffices hfin : s1.current ≤ s'.current by omega
+    by_cases hrx : (allowRegex && ch == 47) = true
+    · simp only [hrx, if_true] at h
+      exact scanRegex_adv inp s1.current (ignore s1) t s' (Nat.le_refl _) h
+    · simp only [hrx, Bool.false_eq_true, if_false] at h
+      cases hsym2 : symbol2 ch with
+      | some r2tt =>
+        obtain ⟨r2, tt⟩ := r2tt
+        simp only [hsym2] at h
+        have ha := accept_ge inp (· == r2) s1.current s1 (Nat.le_refl _)
+        by_cases hok : (acceptRune inp r2 s1).1 = true
+        · simp only [hok, if_true] at h
+          injection h with e; injection e with _ e2
+          rw [← e2]; simpa [newToken, acceptRune] using ha
+        · simp only [hok, Bool.false_eq_true, if_false] at h
+          cases hsym1 : symbol1 ch with
+          | some tt1 =>
+            simp only [hsym1] at h
+            injection h with e; injection e with _ e2
+            rw [← e2]; simpa [newToken, acceptRune] using ha
+          | none =>
+            simp only [hsym1, Option.isSome_some, if_true] at h
+            injection h with e; injection e with _ e2
+            rw [← e2]; simpa [newToken, acceptRune] using ha
+      | none =>
+        simp only [hsym2] at h
+        cases hsym1 : symbol1 ch with
+        | some tt1 =>
+          simp only [hsym1] at h
+          injection h with e; injection e with _ e2
+          rw [← e2]; simp [newToken]
+        | none =>
+          simp only [hsym1, Option.isSome_none, Bool.false_eq_true, if_false] at h
+          have hbk : (backup s1).current = s.current := by rw [← hs1]; exact backup_after_next inp s
+          by_cases hq : (ch == 34 || ch == 39) = true
+          · simp only [hq, if_true] at h
+            exact scanString_adv inp ch s1.current (ignore s1) t s' (Nat.le_refl _) h
+          · simp only [hq, Bool.false_eq_true, if_false] at h
+            by_cases hdig : isDigit ch = true
+            · simp only [hdig, if_true] at h
+              injection h with e
+              have := scanNumber_ge inp (backup s1) ch (by rw [hbk]; exact n1.symm) hdig hne'
+              rw [hbk] at this
+              rw [e] at this
+              simpa [n2] using this
+            · simp only [hdig, Bool.false_eq_true, if_false] at h
+              by_cases hesc : (ch == 96) = true
+              · simp only [hesc, if_true] at h
+                exact scanEscapedName_adv inp s1.current (ignore s1) t s' (Nat.le_refl _) h
+              · simp only [hesc, Bool.false_eq_true, if_false] at h
+                injection h with e
+                have := scanName_ge inp (backup s1) ch (by rw [hbk]; exact n1.symm) hne' hnotws hsym1 hsym2
+                rw [hbk] at this
+                rw [e] at this
+                simpa [n2] using this
+
+
+
+/-- tokens that can still be consumed: bytes the lexer has not read, plus the look-ahead token -/
+def R (inp : Input) (p : PState) : Nat := (inp.size - p.lex.current) + (if p.tok.type == .eof then 0 else 1)
+
+theorem advance_R (inp : Input) (ar : Bool) (p q : PState) (h : advance inp ar p = .ok q) :
+    R inp q ≤ R inp p ∧ (p.tok.type ≠ .eof → R inp q + 1 ≤ R inp p) := by
+  unfold advance at h
+  cases hn : next inp ar p.lex with
+  | error e => simp [hn] at h
+  | ok r =>
+    obtain ⟨t, l⟩ := r
+    simp only [hn] at h
+    injection h with e
+    subst e
+    have hge := next_ge inp ar p.lex t l hn
+    unfold R
+    simp only []
+    by_cases ht : t.type = .eof
+    · simp only [ht, beq_self_eq_true, if_true]
+      constructor
+      · omega
+      · intro hp
+        have : (p.tok.type == Tok.eof) = false := by simpa using hp
+        simp only [this, Bool.false_eq_true, if_false]; omega
+    · have hlt := next_noneof_lt inp ar p.lex t l hn ht
+      have hpr := next_progress inp ar p.lex t l hn ht
+      have : (t.type == Tok.eof) = false := by simpa using ht
+      simp only [this, Bool.false_eq_true, if_false]
+      constructor
+      · split <;> omega
+      · intro hp
+        have : (p.tok.type == Tok.eof) = false := by simpa using hp
+        simp only [this, Bool.false_eq_true, if_false]; omega
+
+/-- the lexer's errors are the three "unterminated" kinds -/
+def LexErr (e : PErr) : Prop :=
+  e.type = "ErrUnterminatedRegex" ∨ e.type = "ErrUnterminatedString" ∨ e.type = "ErrUnterminatedName"
+
+theorem scanRegexLoop_err (inp : Input) (fuel : Nat) (depth : Int) (s : LState) (e : PErr)
+    (h : scanRegexLoop inp fuel depth s = .error e) : LexErr e := by
+  induction fuel generalizing depth s with
+  | zero => simp [scanRegexLoop] at h; subst h; exact Or.inl rfl
+  | succ f ih =>
+    unfold scanRegexLoop at h
+    simp only [] at h
+    repeat' split at h
+    all_goals first
+      | exact ih _ _ h
+      | (injection h with h'; subst h'; exact Or.inl rfl)
+      | (exact absurd h (by simp))
+
+theorem scanStringLoop_err (inp : Input) (q : Nat) (fuel : Nat) (s : LState) (e : PErr)
+    (h : scanStringLoop inp q fuel s = .error e) : LexErr e := by
+  induction fuel generalizing s with
+  | zero => simp [scanStringLoop] at h; subst h; exact Or.inr (Or.inl rfl)
+  | succ f ih =>
+    unfold scanStringLoop at h
+    simp only [] at h
+    repeat' split at h
+    all_goals first
+      | exact ih _ h
+      | (injection h with h'; subst h'; exact Or.inr (Or.inl rfl))
+      | (exact absurd h (by simp))
+
+theorem scanEscLoop_err (inp : Input) (fuel : Nat) (s : LState) (e : PErr)
+    (h : scanEscLoop inp fuel s = .error e) : LexErr e := by
+  induction fuel generalizing s with
+  | zero => simp [scanEscLoop] at h; subst h; exact Or.inr (Or.inr rfl)
+  | succ f ih =>
+    unfold scanEscLoop at h
+    simp only [] at h
+    repeat' split at h
+    all_goals first
+      | exact ih _ h
+      | (injection h with h'; subst h'; exact Or.inr (Or.inr rfl))
+      | (exact absurd h (by simp))
+
+theorem scanRegex_err (inp : Input) (s : LState) (e : PErr) (h : scanRegex inp s = .error e) : LexErr e := by
+  unfold scanRegex at h
+  cases hl : scanRegexLoop inp (inp.size + 1) 0 s with
+  | error e' => simp [hl, bind, Except.bind] at h; subst h; exact scanRegexLoop_err _ _ _ _ _ hl
+  | ok s1 =>
+    simp only [hl, bind, Except.bind, pure, Except.pure] at h
+    split at h <;> simp at h
+
+theorem scanString_err (inp : Input) (q : Nat) (s : LState) (e : PErr) (h : scanString inp q s = .error e) : LexErr e := by
+  unfold scanString at h
+  cases hl : scanStringLoop inp q (inp.size + 1) s with
+  | error e' => simp [hl, bind, Except.bind] at h; subst h; exact scanStringLoop_err _ _ _ _ _ hl
+  | ok s1 => simp [hl, bind, Except.bind, pure, Except.pure] at h
+
+theorem scanEscapedName_err (inp : Input) (s : LState) (e : PErr) (h : scanEscapedName inp s = .error e) : LexErr e := by
+  unfold scanEscapedName at h
+  cases hl : scanEscLoop inp (inp.size + 1) s with
+  | error e' => simp [hl, bind, Except.bind] at h; subst h; exact scanEscLoop_err _ _ _ _ hl
+  | ok s1 => simp [hl, bind, Except.bind, pure, Except.pure] at h
+
+theorem next_err (inp : Input) (ar : Bool) (s0 : LState) (e : PErr) (h : next inp ar s0 = .error e) : LexErr e := by
+  unfold next at h
+  simp only [] at h
+  repeat' split at h
+  all_goals first
+    | exact scanRegex_err _ _ _ h
+    | exact scanString_err _ _ _ _ h
+    | exact scanEscapedName_err _ _ _ h
+    | (simp at h)
+
+theorem lexErr_not_fuel (e : PErr) (h : LexErr e) : e.type ≠ "fuel" := by
+  rcases h with h | h | h <;> (rw [h]; decide)
+
+/-! ### the parser never runs out of fuel -/
+
+/-- a parser step from `p` is *fine*: it does not fail for lack of fuel and does not give tokens back -/
+def Fine {α : Type} (inp : Input) (p : PState) (r : Except PErr (α × PState)) : Prop :=
+  (∀ e, r = .error e → e.type ≠ "fuel") ∧ (∀ x q, r = .ok (x, q) → R inp q ≤ R inp p)
+
+def FineS (inp : Input) (p : PState) (r : Except PErr PState) : Prop :=
+  (∀ e, r = .error e → e.type ≠ "fuel") ∧ (∀ q, r = .ok q → R inp q ≤ R inp p)
+
+theorem fine_ok {α : Type} (inp : Input) (p q : PState) (x : α) (h : R inp q ≤ R inp p) : Fine inp p (.ok (x, q)) :=
+  ⟨fun e he => by simp at he, fun y q' he => by injection he with he; injection he with _ e2; rw [← e2]; exact h⟩
+
+theorem fine_err {α : Type} (inp : Input) (p : PState) (e : PErr) (h : e.type ≠ "fuel") : Fine (α := α) inp p (.error e) :=
+  ⟨fun e' he => by injection he with he; rw [← he]; exact h, fun y q' he => by simp at he⟩
+
+theorem fine_mono {α : Type} (inp : Input) (p p' : PState) (r : Except PErr (α × PState)) (h : Fine inp p' r)
+    (hp : R inp p' ≤ R inp p) : Fine inp p r :=
+  ⟨h.1, fun x q he => Nat.le_trans (h.2 x q he) hp⟩
+
+/-- sequencing: a fine step followed by a step that is fine from wherever the first one stopped -/
+theorem fine_bind {α β : Type} (inp : Input) (p : PState) (m : Except PErr (α × PState)) (f : α × PState → Except PErr (β × PState))
+    (hm : Fine inp p m) (hf : ∀ x q, m = .ok (x, q) → R inp q ≤ R inp p → Fine inp q (f (x, q))) : Fine inp p (m >>= f) := by
+  cases hmv : m with
+  | error e =>
+    refine ⟨fun e' he => ?_, fun y q' he => ?_⟩
+    · simp [bind, Except.bind] at he; rw [← he]; exact hm.1 e hmv
+    · simp [bind, Except.bind] at he
+  | ok r =>
+    obtain ⟨x, q⟩ := r
+    have hq := hm.2 x q hmv
+    have := hf x q hmv hq
+    simp only [bind, Except.bind]
+    exact fine_mono inp p q _ this hq
+
+theorem fine_bindS {β : Type} (inp : Input) (p : PState) (m : Except PErr PState) (f : PState → Except PErr (β × PState))
+    (hm : FineS inp p m) (hf : ∀ q, m = .ok q → R inp q ≤ R inp p → Fine inp q (f q)) : Fine inp p (m >>= f) := by
+  cases hmv : m with
+  | error e =>
+    refine ⟨fun e' he => ?_, fun y q' he => ?_⟩
+    · simp [bind, Except.bind] at he; rw [← he]; exact hm.1 e hmv
+    · simp [bind, Except.bind] at he
+  | ok q =>
+    have hq := hm.2 q hmv
+    have := hf q hmv hq
+    simp only [bind, Except.bind]
+    exact fine_mono inp p q _ this hq
+
+theorem advance_fine (inp : Input) (ar : Bool) (p : PState) : FineS inp p (advance inp ar p) := by
+  refine ⟨fun e he => ?_, fun q he => (advance_R inp ar p q he).1⟩
+  unfold advance at he
+  cases hn : next inp ar p.lex with
+  | error e' => simp [hn] at he; rw [← he]; exact lexErr_not_fuel _ (next_err inp ar p.lex e' hn)
+  | ok r => simp [hn] at he
+
+theorem consume_fine (inp : Input) (t : Tok) (ar : Bool) (p : PState) : FineS inp p (consume inp t ar p) := by
+  unfold consume
+  split
+  · refine ⟨fun e he => ?_, fun q he => by simp at he⟩
+    injection he with he
+    rw [← he]
+    simp only [tokErr]
+    split <;> decide
+  · exact advance_fine inp ar p
+
+/-- consuming a token that is there gives one token less -/
+theorem consume_dec (inp : Input) (t : Tok) (ar : Bool) (p q : PState) (h : consume inp t ar p = .ok q) (ht : t ≠ .eof) :
+    R inp q + 1 ≤ R inp p := by
+  unfold consume at h
+  split at h
+  · simp at h
+  · rename_i hne
+    have : p.tok.type = t := by simpa using hne
+    exact (advance_R inp ar p q h).2 (by rw [this]; exact ht)
+
+def GoodPE (inp : Input) (pe : Nat → PState → Except PErr (PNode × PState)) (B : Nat) : Prop :=
+  ∀ rbp p, R inp p ≤ B → Fine inp p (pe rbp p)
+
+theorem parseList_fine (inp : Input) (item : PState → Except PErr (PNode × PState)) (B : Nat)
+    (hitem : ∀ q, R inp q ≤ B → Fine inp q (item q)) :
+    ∀ n p, R inp p ≤ B → R inp p < n → Fine inp p (parseList inp n item p) := by
+  intro n
+  induction n with
+  | zero => intro p _ h; omega
+  | succ n ih =>
+    intro p hp hn
+    unfold parseList
+    refine fine_bind inp p _ _ (hitem p hp) ?_
+    intro x p1 h1 hq1
+    simp only []
+    split
+    · exact fine_ok inp p1 p1 _ (Nat.le_refl _)
+    · refine fine_bindS inp p1 _ _ (consume_fine inp .comma true p1) ?_
+      intro p2 h2 hq2
+      have hd := consume_dec inp .comma true p1 p2 h2 (by decide)
+      refine fine_bind inp p2 _ _ (ih p2 (by omega) (by omega)) ?_
+      intro xs p3 h3 hq3
+      exact fine_ok inp p3 p3 _ (Nat.le_refl _)
+
+theorem parsePairs_fine (inp : Input) (pe : Nat → PState → Except PErr (PNode × PState)) (B : Nat) (hpe : GoodPE inp pe B) :
+    ∀ n p, R inp p ≤ B → R inp p < n → Fine inp p (parsePairs inp pe n p) := by
+  intro n
+  induction n with
+  | zero => intro p _ h; omega
+  | succ n ih =>
+    intro p hp hn
+    unfold parsePairs
+    refine fine_bind inp p _ _ (hpe 0 p hp) ?_
+    intro k p1 h1 hq1
+    simp only []
+    refine fine_bindS inp p1 _ _ (consume_fine inp .colon true p1) ?_
+    intro p2 h2 hq2
+    refine fine_bind inp p2 _ _ (hpe 0 p2 (by omega)) ?_
+    intro v p3 h3 hq3
+    simp only []
+    split
+    · exact fine_ok inp p3 p3 _ (Nat.le_refl _)
+    · refine fine_bindS inp p3 _ _ (consume_fine inp .comma true p3) ?_
+      intro p4 h4 hq4
+      have hd := consume_dec inp .comma true p3 p4 h4 (by decide)
+      refine fine_bind inp p4 _ _ (ih p4 (by omega) (by omega)) ?_
+      intro rest p5 h5 hq5
+      exact fine_ok inp p5 p5 _ (Nat.le_refl _)
+
+theorem parseBlockExprs_fine (inp : Input) (pe : Nat → PState → Except PErr (PNode × PState)) (B : Nat) (hpe : GoodPE inp pe B) :
+    ∀ n p, R inp p ≤ B → R inp p < n → Fine inp p (parseBlockExprs inp pe n p) := by
+  intro n
+  induction n with
+  | zero => intro p _ h; omega
+  | succ n ih =>
+    intro p hp hn
+    unfold parseBlockExprs
+    split
+    · exact fine_ok inp p p _ (Nat.le_refl _)
+    · refine fine_bind inp p _ _ (hpe 0 p hp) ?_
+      intro e p1 h1 hq1
+      simp only []
+      split
+      · exact fine_ok inp p1 p1 _ (Nat.le_refl _)
+      · refine fine_bindS inp p1 _ _ (consume_fine inp .semicolon true p1) ?_
+        intro p2 h2 hq2
+        have hd := consume_dec inp .semicolon true p1 p2 h2 (by decide)
+        refine fine_bind inp p2 _ _ (ih p2 (by omega) (by omega)) ?_
+        intro es p3 h3 hq3
+        exact fine_ok inp p3 p3 _ (Nat.le_refl _)
+
+theorem fine_of_S {α : Type} (inp : Input) (p : PState) (m : Except PErr PState) (x : α) (hm : FineS inp p m) :
+    Fine inp p (m >>= fun q => pure (x, q)) := by
+  cases hmv : m with
+  | error e =>
+    refine ⟨fun e' he => ?_, fun y q' he => ?_⟩
+    · simp [bind, Except.bind] at he; rw [← he]; exact hm.1 e hmv
+    · simp [bind, Except.bind] at he
+  | ok q =>
+    simp only [bind, Except.bind, pure, Except.pure]
+    exact fine_ok inp p q x (hm.2 q hmv)
+
+theorem parseSortTerms_fine (inp : Input) (pe : Nat → PState → Except PErr (PNode × PState)) (B : Nat) (hpe : GoodPE inp pe B) :
+    ∀ n p, R inp p ≤ B → R inp p < n → Fine inp p (parseSortTerms inp pe n p) := by
+  intro n
+  induction n with
+  | zero => intro p _ h; omega
+  | succ n ih =>
+    intro p hp hn
+    unfold parseSortTerms
+    have hdir : Fine inp p (match p.tok.type with
+        | .less => do let q ← consume inp .less true p; pure (SortDir.asc, q)
+        | .greater => do let q ← consume inp .greater true p; pure (SortDir.desc, q)
+        | _ => pure (SortDir.default_, p) : Except PErr (SortDir × PState)) := by
+      split
+      · exact fine_of_S inp p _ _ (consume_fine inp .less true p)
+      · exact fine_of_S inp p _ _ (consume_fine inp .greater true p)
+      · exact fine_ok inp p p _ (Nat.le_refl _)
+    refine fine_bind inp p _ _ hdir ?_
+    intro dir p1 h1 hq1
+    simp only []
+    refine fine_bind inp p1 _ _ (hpe 0 p1 (by omega)) ?_
+    intro e p2 h2 hq2
+    simp only []
+    split
+    · exact fine_ok inp p2 p2 _ (Nat.le_refl _)
+    · refine fine_bindS inp p2 _ _ (consume_fine inp .comma true p2) ?_
+      intro p3 h3 hq3
+      have hd := consume_dec inp .comma true p2 p3 h3 (by decide)
+      refine fine_bind inp p3 _ _ (ih p3 (by omega) (by omega)) ?_
+      intro ts p4 h4 hq4
+      exact fine_ok inp p4 p4 _ (Nat.le_refl _)
+
+/-- like `Fine` for the triple-valued argument parser -/
+theorem parseArgs_fine (inp : Input) (pe : Nat → PState → Except PErr (PNode × PState)) (B : Nat) (hpe : GoodPE inp pe B) :
+    ∀ n p, R inp p ≤ B → R inp p < n →
+      (∀ e, parseArgs inp pe n p = .error e → e.type ≠ "fuel") ∧
+      (∀ a b q, parseArgs inp pe n p = .ok (a, b, q) → R inp q ≤ R inp p) := by
+  intro n
+  induction n with
+  | zero => intro p _ h; omega
+  | succ n ih =>
+    intro p hp hn
+    unfold parseArgs
+    -- first argument
+    have harg : ∀ r, (if p.tok.type == .condition then do
+          let q ← consume inp .condition true p
+          pure (PNode.placeholder, true, q)
+        else do
+          let (a, q) ← pe 0 p
+          pure (a, false, q) : Except PErr (PNode × Bool × PState)) = r →
+        (∀ e, r = .error e → e.type ≠ "fuel") ∧ (∀ a b q, r = .ok (a, b, q) → R inp q ≤ R inp p) := by
+      intro r hr
+      split at hr
+      · have hc := consume_fine inp .condition true p
+        cases hcv : consume inp .condition true p with
+        | error e => simp [hcv, bind, Except.bind] at hr; subst hr; exact ⟨fun e' he => by injection he with he; rw [← he]; exact hc.1 e hcv, fun a b q he => by simp at he⟩
+        | ok q => simp [hcv, bind, Except.bind, pure, Except.pure] at hr; subst hr; exact ⟨fun e' he => by simp at he, fun a b q' he => by injection he with he; injection he with _ he; injection he with _ he; rw [← he]; exact hc.2 q hcv⟩
+      · have hc := hpe 0 p hp
+        cases hcv : pe 0 p with
+        | error e => simp [hcv, bind, Except.bind] at hr; subst hr; exact ⟨fun e' he => by injection he with he; rw [← he]; exact hc.1 e hcv, fun a b q he => by simp at he⟩
+        | ok r' =>
+          obtain ⟨a, q⟩ := r'
+          simp [hcv, bind, Except.bind, pure, Except.pure] at hr; subst hr
+          exact ⟨fun e' he => by simp at he, fun a' b q' he => by injection he with he; injection he with _ he; injection he with _ he; rw [← he]; exact hc.2 a q hcv⟩
+    generalize hg : (if p.tok.type == .condition then do
+          let q ← consume inp .condition true p
+          pure (PNode.placeholder, true, q)
+        else do
+          let (a, q) ← pe 0 p
+          pure (a, false, q) : Except PErr (PNode × Bool × PState)) = first
+    obtain ⟨f1, f2⟩ := harg first hg
+    cases first with
+    | error e =>
+      simp only [bind, Except.bind]
+      exact ⟨fun e' he => by injection he with he; rw [← he]; exact f1 e rfl, fun a b q he => by simp at he⟩
+    | ok r =>
+      obtain ⟨arg, isPh, p1⟩ := r
+      have hq1 := f2 arg isPh p1 rfl
+      simp only [bind, Except.bind]
+      split
+      · exact ⟨fun e he => by simp at he, fun a b q he => by injection he with he; injection he with _ he; injection he with _ he; rw [← he]; exact hq1⟩
+      · have hc := consume_fine inp .comma true p1
+        cases hcv : consume inp .comma true p1 with
+        | error e => exact ⟨fun e' he => by injection he with he; rw [← he]; exact hc.1 e hcv, fun a b q he => by simp at he⟩
+        | ok p2 =>
+          have hq2 := hc.2 p2 hcv
+          have hd := consume_dec inp .comma true p1 p2 hcv (by decide)
+          obtain ⟨i1, i2⟩ := ih p2 (by omega) (by omega)
+          simp only []
+          cases hr : parseArgs inp pe n p2 with
+          | error e => exact ⟨fun e' he => by injection he with he; rw [← he]; exact i1 e hr, fun a b q he => by simp at he⟩
+          | ok r2 =>
+            obtain ⟨rest, ph2, p3⟩ := r2
+            have := i2 rest ph2 p3 hr
+            exact ⟨fun e he => by simp at he, fun a b q he => by injection he with he; injection he with _ he; injection he with _ he; rw [← he]; show R inp p3 ≤ R inp p; omega⟩
+
+theorem parseParamNames_fine (inp : Input) (pe : Nat → PState → Except PErr (PNode × PState)) (B : Nat) (hpe : GoodPE inp pe B) :
+    ∀ n tk used p, R inp p ≤ B → R inp p < n → Fine inp p (parseParamNames inp pe n tk used p) := by
+  intro n
+  induction n with
+  | zero => intro tk used p _ h; omega
+  | succ n ih =>
+    intro tk used p hp hn
+    unfold parseParamNames
+    refine fine_bind inp p _ _ (hpe 0 p hp) ?_
+    intro arg p1 h1 hq1
+    simp only []
+    split
+    · split
+      · exact fine_err inp p1 _ (by simp [tokErr])
+      · split
+        · exact fine_ok inp p1 p1 _ (Nat.le_refl _)
+        · refine fine_bindS inp p1 _ _ (consume_fine inp .comma true p1) ?_
+          intro p2 h2 hq2
+          have hd := consume_dec inp .comma true p1 p2 h2 (by decide)
+          refine fine_bind inp p2 _ _ (ih _ _ p2 (by omega) (by omega)) ?_
+          intro rest p3 h3 hq3
+          exact fine_ok inp p3 p3 _ (Nat.le_refl _)
+    · exact fine_err inp p1 _ (by simp [tokErr])
+
+theorem R_le (inp : Input) (p : PState) : R inp p < inp.size + 2 := by
+  unfold R; split <;> omega
+
+theorem sigLoop_fine (inp : Input) : ∀ n depth sig p, R inp p < n → Fine inp p (sigLoop inp n depth sig p) := by
+  intro n
+  induction n with
+  | zero => intro depth sig p h; omega
+  | succ n ih =>
+    intro depth sig p hn
+    unfold sigLoop
+    split
+    · exact fine_ok inp p p _ (Nat.le_refl _)
+    · rename_i hstop
+      have hne : p.tok.type ≠ .eof := by
+        intro he; apply hstop; simp [he]
+      refine fine_bindS inp p _ _ (advance_fine inp true p) ?_
+      intro p1 h1 hq1
+      have hd := (advance_R inp true p p1 h1).2 hne
+      split
+      · split
+        · exact fine_ok inp p1 p1 _ (Nat.le_refl _)
+        · exact ih _ _ p1 (by omega)
+      · exact ih _ _ p1 (by omega)
+      · exact ih _ _ p1 (by omega)
+
+theorem nud_fine (inp : Input) (pe : Nat → PState → Except PErr (PNode × PState)) (B : Nat) (hpe : GoodPE inp pe B)
+    (t : Token) (p : PState) (hp : R inp p ≤ B) : Fine inp p (nud inp pe t p) := by
+  have ok0 : ∀ x : PNode, Fine inp p (.ok (x, p)) := fun x => fine_ok inp p p x (Nat.le_refl _)
+  unfold nud
+  split
+  · -- string
+    simp only []
+    split
+    · exact ok0 _
+    · refine fine_err inp p _ ?_
+      simp only [tokErr]; split <;> decide
+  · -- number
+    split
+    · exact ok0 _
+    · exact fine_err inp p _ (by simp [tokErr])
+    · exact fine_err inp p _ (by simp [tokErr])
+  · exact ok0 _
+  · exact ok0 _
+  · -- regex
+    simp only []
+    split
+    · exact fine_err inp p _ (by simp [tokErr])
+    · exact ok0 _
+  · exact ok0 _
+  · exact ok0 _
+  · exact ok0 _
+  · exact ok0 _
+  · exact ok0 _
+  · exact ok0 _
+  · -- array
+    split
+    · refine fine_bindS inp p _ _ (consume_fine inp .bracketClose false p) ?_
+      intro p1 h1 hq1
+      exact fine_ok inp p1 p1 _ (Nat.le_refl _)
+    · simp only []
+      have hitem : ∀ q, R inp q ≤ B → Fine inp q ((fun (q : PState) => (do
+            let (x, q1) ← pe 0 q
+            if q1.tok.type == .range then do
+              let q2 ← consume inp .range true q1
+              let (y, q3) ← pe 0 q2
+              .ok (.range x y, q3)
+            else .ok (x, q1) : Except PErr (PNode × PState))) q) := by
+        intro q hq
+        simp only []
+        refine fine_bind inp q _ _ (hpe 0 q hq) ?_
+        intro x q1 h1 hq1
+        simp only []
+        split
+        · refine fine_bindS inp q1 _ _ (consume_fine inp .range true q1) ?_
+          intro q2 h2 hq2
+          refine fine_bind inp q2 _ _ (hpe 0 q2 (by omega)) ?_
+          intro y q3 h3 hq3
+          exact fine_ok inp q3 q3 _ (Nat.le_refl _)
+        · exact fine_ok inp q1 q1 _ (Nat.le_refl _)
+      refine fine_bind inp p _ _ (parseList_fine inp _ B hitem (inp.size + 2) p hp (R_le inp p)) ?_
+      intro items p1 h1 hq1
+      simp only []
+      refine fine_bindS inp p1 _ _ (consume_fine inp .bracketClose false p1) ?_
+      intro p2 h2 hq2
+      exact fine_ok inp p2 p2 _ (Nat.le_refl _)
+  · -- object
+    split
+    · refine fine_bindS inp p _ _ (consume_fine inp .braceClose false p) ?_
+      intro p1 h1 hq1
+      exact fine_ok inp p1 p1 _ (Nat.le_refl _)
+    · refine fine_bind inp p _ _ (parsePairs_fine inp pe B hpe (inp.size + 2) p hp (R_le inp p)) ?_
+      intro pairs p1 h1 hq1
+      simp only []
+      refine fine_bindS inp p1 _ _ (consume_fine inp .braceClose false p1) ?_
+      intro p2 h2 hq2
+      exact fine_ok inp p2 p2 _ (Nat.le_refl _)
+  · -- block
+    refine fine_bind inp p _ _ (parseBlockExprs_fine inp pe B hpe (inp.size + 2) p hp (R_le inp p)) ?_
+    intro exprs p1 h1 hq1
+    simp only []
+    refine fine_bindS inp p1 _ _ (consume_fine inp .parenClose false p1) ?_
+    intro p2 h2 hq2
+    exact fine_ok inp p2 p2 _ (Nat.le_refl _)
+  · exact ok0 _
+  · exact ok0 _
+  · -- negation
+    refine fine_bind inp p _ _ (hpe _ p hp) ?_
+    intro rhs p1 h1 hq1
+    exact fine_ok inp p1 p1 _ (Nat.le_refl _)
+  · -- transform
+    refine fine_bind inp p _ _ (hpe 0 p hp) ?_
+    intro pat p1 h1 hq1
+    simp only []
+    refine fine_bindS inp p1 _ _ (consume_fine inp .pipe true p1) ?_
+    intro p2 h2 hq2
+    refine fine_bind inp p2 _ _ (hpe 0 p2 (by omega)) ?_
+    intro upd p3 h3 hq3
+    simp only []
+    split
+    · refine fine_bindS inp p3 _ _ (consume_fine inp .comma true p3) ?_
+      intro p4 h4 hq4
+      refine fine_bind inp p4 _ _ (hpe 0 p4 (by omega)) ?_
+      intro del p5 h5 hq5
+      simp only []
+      refine fine_bindS inp p5 _ _ (consume_fine inp .pipe false p5) ?_
+      intro p6 h6 hq6
+      exact fine_ok inp p6 p6 _ (Nat.le_refl _)
+    · refine fine_bindS inp p3 _ _ (consume_fine inp .pipe false p3) ?_
+      intro p4 h4 hq4
+      exact fine_ok inp p4 p4 _ (Nat.le_refl _)
+  · exact fine_err inp p _ (by simp [tokErr])
+
+theorem types_err (l : List Char) (acc : Nat) (e : PErr) (h : parseParams.types l acc = .error e) : e.type ≠ "fuel" := by
+  induction l generalizing acc with
+  | nil => simp [parseParams.types] at h
+  | cons c cs ih =>
+    unfold parseParams.types at h
+    split at h
+    · exact ih _ h
+    · injection h with h'; subst h'; simp
+
+theorem parseParams_not_fuel (n : Nat) (s : List Char) (ps : List Param) (e : PErr) (h : parseParams n s ps = .error e) :
+    e.type ≠ "fuel" := by
+  induction n generalizing s ps with
+  | zero => simp [parseParams] at h
+  | succ k ih =>
+    unfold parseParams at h
+    repeat' split at h
+    all_goals first
+      | exact ih _ _ h
+      | (injection h with h'; subst h'; exact types_err _ _ _ (by assumption))
+      | (injection h with h'; subst h'; exact ih _ _ (by assumption))
+      | (injection h with h'; subst h'; simp; done)
+      | (exact absurd h (by intro hh; cases hh))
+
+theorem fine_bindP {γ β : Type} (inp : Input) (p : PState) (m : Except PErr γ) (f : γ → Except PErr (β × PState))
+    (hm : ∀ e, m = .error e → e.type ≠ "fuel") (hf : ∀ v, m = .ok v → Fine inp p (f v)) : Fine inp p (m >>= f) := by
+  cases hmv : m with
+  | error e =>
+    refine ⟨fun e' he => ?_, fun y q' he => ?_⟩
+    · simp [bind, Except.bind] at he; rw [← he]; exact hm e hmv
+    · simp [bind, Except.bind] at he
+  | ok v => simp only [bind, Except.bind]; exact hf v hmv
+
+theorem led_fine (inp : Input) (pe : Nat → PState → Except PErr (PNode × PState)) (B : Nat) (hpe : GoodPE inp pe B)
+    (t : Token) (lhs : PNode) (p : PState) (hp : R inp p ≤ B) : Fine inp p (led inp pe t lhs p) := by
+  have bin : ∀ (k : Nat) (mk : PNode → PNode), Fine inp p (do let (rhs, p1) ← pe k p; .ok (mk rhs, p1)) := by
+    intro k mk
+    refine fine_bind inp p _ _ (hpe k p hp) ?_
+    intro rhs p1 h1 hq1
+    exact fine_ok inp p1 p1 _ (Nat.le_refl _)
+  unfold led
+  split
+  · -- ( : lambda definition, call, partial application
+    simp only []
+    split
+    · split
+      · -- lambda
+        have hnames : Fine inp p (if p.tok.type == .parenClose then pure ([], p)
+            else parseParamNames inp pe (inp.size + 2) p.tok [] p : Except PErr (List String × PState)) := by
+          split
+          · exact fine_ok inp p p _ (Nat.le_refl _)
+          · exact parseParamNames_fine inp pe B hpe _ _ _ p hp (R_le inp p)
+        refine fine_bind inp p _ _ hnames ?_
+        intro names p1 h1 hq1
+        simp only []
+        refine fine_bindS inp p1 _ _ (consume_fine inp .parenClose false p1) ?_
+        intro p2 h2 hq2
+        have hsig : Fine inp p2 (if p2.tok.type != .less then pure (none, p2) else do
+              let (s, q) ← sigLoop inp (inp.size + 2) 1 "" p2
+              let q1 ← consume inp .greater true q
+              pure (some s, q1) : Except PErr (Option String × PState)) := by
+          split
+          · exact fine_ok inp p2 p2 _ (Nat.le_refl _)
+          · refine fine_bind inp p2 _ _ (sigLoop_fine inp _ _ _ p2 (R_le inp p2)) ?_
+            intro sg q hsg hqq
+            simp only []
+            refine fine_bindS inp q _ _ (consume_fine inp .greater true q) ?_
+            intro q1 hq1' hqq1
+            exact fine_ok inp q1 q1 _ (Nat.le_refl _)
+        refine fine_bind inp p2 _ _ hsig ?_
+        intro sig p3 h3 hq3
+        simp only []
+        -- the signature text is parsed without touching the token stream
+        refine fine_bindP inp p3 _ _ ?_ ?_
+        · intro e he
+          cases sig with
+          | none => simp [pure, Except.pure] at he
+          | some sg =>
+            simp only [] at he
+            split at he
+            · rename_i e' he'
+              injection he with he; rw [← he]; exact parseParams_not_fuel _ _ _ _ he'
+            · split at he
+              · injection he with he; rw [← he]; simp [tokErr]
+              · simp [pure, Except.pure] at he
+        · intro params hparams
+          refine fine_bindS inp p3 _ _ (consume_fine inp .braceOpen true p3) ?_
+          intro p4 h4 hq4
+          refine fine_bind inp p4 _ _ (hpe 0 p4 (by omega)) ?_
+          intro body p5 h5 hq5
+          simp only []
+          refine fine_bindS inp p5 _ _ (consume_fine inp .braceClose false p5) ?_
+          intro p6 h6 hq6
+          exact fine_ok inp p6 p6 _ (Nat.le_refl _)
+      · -- call / partial application
+        split
+        · refine fine_bindS inp p _ _ (consume_fine inp .parenClose false p) ?_
+          intro p1 h1 hq1
+          exact fine_ok inp p1 p1 _ (Nat.le_refl _)
+        · obtain ⟨a1, a2⟩ := parseArgs_fine inp pe B hpe (inp.size + 2) p hp (R_le inp p)
+          cases ha : parseArgs inp pe (inp.size + 2) p with
+          | error e => simp only [bind, Except.bind]; exact fine_err inp p e (a1 e ha)
+          | ok r =>
+            obtain ⟨args, isPartial, p1⟩ := r
+            have hq1 := a2 args isPartial p1 ha
+            simp only [bind, Except.bind]
+            refine fine_mono inp p p1 _ ?_ hq1
+            refine fine_bindS inp p1 _ _ (consume_fine inp .parenClose false p1) ?_
+            intro p2 h2 hq2
+            exact fine_ok inp p2 p2 _ (Nat.le_refl _)
+
+    · simp only [Bool.false_eq_true, if_false]
+      split
+      · refine fine_bindS inp p _ _ (consume_fine inp .parenClose false p) ?_
+        intro p1 h1 hq1
+        exact fine_ok inp p1 p1 _ (Nat.le_refl _)
+      · obtain ⟨a1, a2⟩ := parseArgs_fine inp pe B hpe (inp.size + 2) p hp (R_le inp p)
+        cases ha : parseArgs inp pe (inp.size + 2) p with
+        | error e => simp only [bind, Except.bind]; exact fine_err inp p e (a1 e ha)
+        | ok r =>
+          obtain ⟨args, isPartial, p1⟩ := r
+          have hq1 := a2 args isPartial p1 ha
+          simp only [bind, Except.bind]
+          refine fine_mono inp p p1 _ ?_ hq1
+          refine fine_bindS inp p1 _ _ (consume_fine inp .parenClose false p1) ?_
+          intro p2 h2 hq2
+          exact fine_ok inp p2 p2 _ (Nat.le_refl _)
+
+  · -- [ : predicate
+    split
+    · refine fine_bindS inp p _ _ (consume_fine inp .bracketClose false p) ?_
+      intro p1 h1 hq1
+      exact fine_ok inp p1 p1 _ (Nat.le_refl _)
+    · refine fine_bind inp p _ _ (hpe 0 p hp) ?_
+      intro rhs p1 h1 hq1
+      simp only []
+      refine fine_bindS inp p1 _ _ (consume_fine inp .bracketClose false p1) ?_
+      intro p2 h2 hq2
+      exact fine_ok inp p2 p2 _ (Nat.le_refl _)
+  · -- { : grouping
+    split
+    · refine fine_bindS inp p _ _ (consume_fine inp .braceClose false p) ?_
+      intro p1 h1 hq1
+      exact fine_ok inp p1 p1 _ (Nat.le_refl _)
+    · refine fine_bind inp p _ _ (parsePairs_fine inp pe B hpe (inp.size + 2) p hp (R_le inp p)) ?_
+      intro pairs p1 h1 hq1
+      simp only []
+      refine fine_bindS inp p1 _ _ (consume_fine inp .braceClose false p1) ?_
+      intro p2 h2 hq2
+      exact fine_ok inp p2 p2 _ (Nat.le_refl _)
+  · -- ? :
+    refine fine_bind inp p _ _ (hpe 0 p hp) ?_
+    intro thn p1 h1 hq1
+    simp only []
+    split
+    · refine fine_bindS inp p1 _ _ (consume_fine inp .colon true p1) ?_
+      intro p2 h2 hq2
+      refine fine_bind inp p2 _ _ (hpe 0 p2 (by omega)) ?_
+      intro els p3 h3 hq3
+      exact fine_ok inp p3 p3 _ (Nat.le_refl _)
+    · exact fine_ok inp p1 p1 _ (Nat.le_refl _)
+  · -- :=
+    split
+    · exact bin _ _
+    · exact fine_err inp p _ (by simp [tokErr])
+  · exact bin _ _
+  · exact bin _ _
+  · -- order-by
+    refine fine_bindS inp p _ _ (consume_fine inp .parenOpen true p) ?_
+    intro p1 h1 hq1
+    refine fine_bind inp p1 _ _ (parseSortTerms_fine inp pe B hpe (inp.size + 2) p1 (by omega) (R_le inp p1)) ?_
+    intro terms p2 h2 hq2
+    simp only []
+    refine fine_bindS inp p2 _ _ (consume_fine inp .parenClose false p2) ?_
+    intro p3 h3 hq3
+    exact fine_ok inp p3 p3 _ (Nat.le_refl _)
+  · exact bin _ _
+  · exact bin _ _
+  · exact bin _ _
+  · -- arithmetic and comparison operators
+    split
+    · exact bin _ _
+    · exact bin _ _
+    · exact fine_err inp p _ (by simp [tokErr])
+
+theorem bp_eof : bp .eof = 0 := by decide
+
+theorem ledLoop_fine (inp : Input) (pe : Nat → PState → Except PErr (PNode × PState)) (B : Nat) (hpe : GoodPE inp pe B) :
+    ∀ n rbp lhs p, R inp p ≤ B → R inp p < n → Fine inp p (ledLoop inp pe n rbp lhs p) := by
+  intro n
+  induction n with
+  | zero => intro rbp lhs p _ h; omega
+  | succ n ih =>
+    intro rbp lhs p hp hn
+    unfold ledLoop
+    split
+    · rename_i hcond
+      have hne : p.tok.type ≠ .eof := by
+        intro he; rw [he, bp_eof] at hcond; omega
+      simp only []
+      refine fine_bindS inp p _ _ (advance_fine inp true p) ?_
+      intro p1 h1 hq1
+      have hd := (advance_R inp true p p1 h1).2 hne
+      refine fine_bind inp p1 _ _ (led_fine inp pe B hpe p.tok lhs p1 (by omega)) ?_
+      intro lhs' p2 h2 hq2
+      exact ih rbp lhs' p2 (by omega) (by omega)
+    · exact fine_ok inp p p _ (Nat.le_refl _)
+
+/-- **The parser's recursion budget suffices.**  `parseExpr` with more fuel than there are tokens left never
+    fails for lack of fuel (neither itself nor any of the list loops it runs), and never gives tokens back. -/
+theorem parseExpr_fine (inp : Input) : ∀ fuel rbp p, R inp p < fuel → Fine inp p (parseExpr inp fuel rbp p) := by
+  intro fuel
+  induction fuel with
+  | zero => intro rbp p h; omega
+  | succ fuel ih =>
+    intro rbp p hf
+    unfold parseExpr
+    by_cases heof : (p.tok.type == .eof) = true
+    · simp only [heof, if_true, bind, Except.bind]
+      exact fine_err inp p _ (by simp [tokErr])
+    · simp only [heof, Bool.false_eq_true, if_false, bind, Except.bind, pure, Except.pure]
+      have hne : p.tok.type ≠ .eof := by simpa using heof
+      have hadv := advance_fine inp false p
+      cases ha : advance inp false p with
+      | error e => exact fine_err inp p e (hadv.1 e ha)
+      | ok p1 =>
+        have hdec := (advance_R inp false p p1 ha).2 hne
+        have hgood : GoodPE inp (parseExpr inp fuel) (R inp p1) := fun rbp' q hq => ih rbp' q (by omega)
+        simp only []
+        refine fine_mono inp p p1 _ ?_ (by omega)
+        have hn := nud_fine inp (parseExpr inp fuel) (R inp p1) hgood p.tok p1 (Nat.le_refl _)
+        have := fine_bind inp p1 (nud inp (parseExpr inp fuel) p.tok p1)
+          (fun r => ledLoop inp (parseExpr inp fuel) (inp.size + 2) rbp r.1 r.2) hn
+          (fun lhs p2 h2 hq2 => ledLoop_fine inp (parseExpr inp fuel) (R inp p1) hgood _ rbp lhs p2 hq2 (R_le inp p2))
+        simpa [bind, Except.bind] using this
+
+/-- **Compile's parsing phase never runs out of its recursion budget**: with the budget `parse` uses
+    (2·|input| + 8), for every input (valid UTF-8 or not) the token-level parser returns a tree or one of
+    jparse's error kinds — never the model's `fuel` error.  Together with `lexAll_terminates` this is the
+    termination half of "Compile is total" for the modelled lexer and Pratt parser (the optimiser that follows
+    is structurally recursive on the tree). -/
+theorem parse_never_out_of_fuel (inp : Input) (p0 : PState) (h0 : advance inp true { lex := initState, tok := default } = .ok p0) :
+    ∀ e, parseExpr inp (2 * inp.size + 8) 0 p0 = .error e → e.type ≠ "fuel" := by
+  intro e he
+  have hR := R_le inp p0
+  exact (parseExpr_fine inp (2 * inp.size + 8) 0 p0 (by omega)).1 e he
 
 
 /-! ### signatures and escapes are total with typed errors -/
